@@ -33,6 +33,9 @@ def run(mod, tier):
     if os.path.isdir(d):
         for f in os.listdir(d):
             os.unlink(os.path.join(d, f))
+    if os.environ.get("VERIF_ONLY") or os.environ.get("VERIF_REPO"):
+        print("(development run: VERIF_ONLY/VERIF_REPO set - selftest summary not written)")
+        return 0 if all(r["killed"] for r in res) else 3
     os.makedirs(os.path.join(core.VERIF, "evidence"), exist_ok=True)
     with open(os.path.join(core.VERIF, "evidence", "%s.selftest.json" % mod.ID), "w") as f:
         json.dump({"property_id": mod.ID, "tier": tier, "mutants": res, "killed": sum(r["killed"] for r in res),
